@@ -300,7 +300,7 @@ func TestC07(t *testing.T) {
 		rec.Require("conflict:"+k, 0.02)
 	}
 	rapid.Check(t, func(rt *rapid.T) {
-		ms := gen.Modules(rt, gen.ModOpts{MaxConflicts: 2, Layout: true})
+		ms := gen.Modules(rt, gen.ModOpts{MaxConflicts: 2, Layout: true, CaseNames: true})
 		in := modInputOf(ms)
 		cls, _, nt := modClasses(ms)
 		var sample any
@@ -405,7 +405,7 @@ func TestC12(t *testing.T) {
 	rec.Require("set:two-or-more-extending-files", 0.5)
 	rec.Require("set:two-or-more-conflicts", 0.15)
 	rapid.Check(t, func(rt *rapid.T) {
-		ms := gen.Modules(rt, gen.ModOpts{MaxConflicts: 3, MinExtFiles: 2, MaxFiles: 5, MultiDup: true})
+		ms := gen.Modules(rt, gen.ModOpts{MaxConflicts: 3, MinExtFiles: 2, MaxFiles: 5, MultiDup: true, CaseNames: true})
 		in := modInputOf(ms)
 		idx := make([]int, len(in.Files))
 		for i := range idx {
@@ -559,7 +559,7 @@ func c16MergeCheck(in modInput) string {
 
 func c16Merge(t *testing.T, rec *ev.Rec) {
 	rapid.Check(t, func(rt *rapid.T) {
-		ms := gen.Modules(rt, gen.ModOpts{MaxConflicts: 1, Decoys: true, MaxFiles: 4, Layout: true,
+		ms := gen.Modules(rt, gen.ModOpts{MaxConflicts: 1, Decoys: true, MaxFiles: 4, Layout: true, CaseNames: true,
 			OnlyKinds: []string{"duplicate-type-across", "duplicate-type-within", "duplicate-condition", "extend-missing-type", "relation-clash-base", "relation-clash-extensions"}})
 		in := modInputOf(ms)
 		cls := []string{"merge:case"}
